@@ -186,6 +186,7 @@ type versEngine struct {
 	un          *ssa.Function
 	compat      []string
 	compatOK    bool
+	noGate      bool // no vers.IsCompatible call under Unmarshal at all
 	verDep      map[*ssa.Function]bool
 	eff         map[*ssa.Function]*effSummary
 	undecided   []string
@@ -229,6 +230,9 @@ func newVersEngine(p *Program) *versEngine {
 		scan(e.un, 0)
 		if n != 1 {
 			e.compatOK = false
+		}
+		if n == 0 {
+			e.noGate = true
 		}
 	}
 	return e
